@@ -233,11 +233,14 @@ struct History {
 }
 
 /// random walk with undo bursts and queries
-fn walk(tr: &mut Tracer, rng: &mut Rng, gen: &mut MoveGenerator, start: Board, plies: usize, style: &str) {
+fn walk(tr: &mut Tracer, rng: &mut Rng, gen: &mut MoveGenerator, start: Board, plies: usize, style: &str, keep_home: bool) {
     let mut h = History { board: start, stack: vec![] };
     tr.reset(&h.board);
     let register = style == "repetition";
     let mut last_own: [Option<ChessMove>; 2] = [None, None];
+    // in half of the long games kings and rooks stay at home for the first 66-95 plies, so that castling
+    // rights are still held -- and then lost -- deep into the history (stacks longer than any fixed window)
+    let protect = if style != "walk" && (keep_home || rng.chance(1, 2)) { 66 + rng.below(30) } else { 0 };
     for step in 0..plies {
         // undo burst
         if !h.stack.is_empty() && rng.chance(1, if style == "walk" { 9 } else if style == "clock" { 80 } else { 25 }) {
@@ -281,13 +284,24 @@ fn walk(tr: &mut Tracer, rng: &mut Rng, gen: &mut MoveGenerator, start: Board, p
         }
         let m = match style {
             "clock" | "repetition" => {
-                let rev: Vec<&ChessMove> = moves.iter().filter(|m| is_reversible(&h.board, m)).collect();
+                let mut rev: Vec<&ChessMove> = moves.iter().filter(|m| is_reversible(&h.board, m)).collect();
+                if h.stack.len() < protect {
+                    let calm: Vec<&ChessMove> = rev
+                        .iter()
+                        .filter(|m| !matches!(h.board.get(m.from_square()), Some((chess::board::piece::Piece::King, _)) | Some((chess::board::piece::Piece::Rook, _))))
+                        .cloned()
+                        .collect();
+                    if !calm.is_empty() {
+                        rev = calm;
+                    }
+                }
                 let si = if side == Color::White { 1 } else { 0 };
                 // going back where we came from makes recurrences likely
                 let back = last_own[si].as_ref().and_then(|p| {
                     moves.iter().find(|m| m.from_square() == p.to_square() && m.to_square() == p.from_square() && is_reversible(&h.board, m))
                 });
-                let pawnish = style == "clock" && rng.chance(1, 40 + (step as u64 % 3) * 60);
+                // (repetition games: now and then an irreversible move, usually taken back at once -- a look-ahead)
+                let pawnish = (style == "clock" && rng.chance(1, 40 + (step as u64 % 3) * 60)) || (style == "repetition" && rng.chance(1, 14));
                 if let (Some(b), true) = (back, style == "repetition" && rng.chance(3, 5)) {
                     b.clone()
                 } else if !rev.is_empty() && !pawnish {
@@ -314,7 +328,20 @@ fn walk(tr: &mut Tracer, rng: &mut Rng, gen: &mut MoveGenerator, start: Board, p
             return;
         }
         last_own[if side == Color::White { 1 } else { 0 }] = Some(m.clone());
+        let irreversible = register && h.board.halfmove_clock() == 0;
         h.stack.push((m, reg));
+        if irreversible && rng.chance(2, 3) {
+            let (m, reg) = h.stack.pop().unwrap();
+            if reg && !tr.uncount(&mut h.board) {
+                return;
+            }
+            tr.toggle(&mut h.board);
+            if !tr.undo(&mut h.board, &m) {
+                return;
+            }
+            last_own = [None, None];
+            continue;
+        }
         if register && h.board.max_seen_position_count() as u64 >= 3 {
             // the game would be over here; look at the verdict, then (usually) take it back and go on;
             // now and then play on past the third occurrence so that counts of 4 and 5 and their
@@ -489,7 +516,7 @@ pub fn main(args: &[String]) {
         }
     } else {
         for g in 0..games {
-            let start = if seeds.is_empty() || (scenario == "walk" && g % 3 == 0) {
+            let start = if seeds.is_empty() || (scenario == "walk" && g % 3 == 0) || (scenario == "clock" && g % 4 == 2) {
                 Board::starting_position()
             } else {
                 let p = &seeds[rng.below(seeds.len())];
@@ -501,7 +528,8 @@ pub fn main(args: &[String]) {
                     p.setup()
                 }
             };
-            walk(&mut tr, &mut rng, &mut gen, start, plies, &scenario);
+            let from_start = scenario == "clock" && g % 4 == 2;
+            walk(&mut tr, &mut rng, &mut gen, start, plies, &scenario, from_start);
             histories += 1;
         }
     }
